@@ -5,6 +5,7 @@ from typing import TYPE_CHECKING
 import attrs
 import h5py
 import numpy as np
+from astropy.coordinates import Angle, SkyCoord
 from matplotlib import pyplot as plt
 
 from sigpyproc.core import stats
@@ -269,6 +270,11 @@ class RFIMask:
             for key, value in attrs.asdict(self.header).items():
                 if isinstance(value, np.integer | np.floating | int | float | str):
                     fp.attrs[key] = value
+            # Sky position and pointing are astropy objects: stored in degrees
+            coord = self.header.coord
+            fp.attrs["coord"] = [coord.ra.deg, coord.dec.deg]
+            fp.attrs["azimuth"] = self.header.azimuth.deg
+            fp.attrs["zenith"] = self.header.zenith.deg
             for key, value in attrs.asdict(self).items():
                 if isinstance(value, np.ndarray):
                     fp.create_dataset(key, data=value)
@@ -392,6 +398,11 @@ class RFIMask:
             for key, value in fp_attrs.items()
             if key in attrs.fields_dict(Header)
         }
+        if "coord" in hdr_checked:
+            hdr_checked["coord"] = SkyCoord(*hdr_checked["coord"], unit="deg")
+        for key in ("azimuth", "zenith"):
+            if key in hdr_checked:
+                hdr_checked[key] = Angle(hdr_checked[key], unit="deg")
         kws = {
             "header": Header(**hdr_checked),
             "threshold": fp_attrs["threshold"],
